@@ -273,25 +273,28 @@ def main_check(mod, argv):
         # 2. proofs
         rc, out, dt = coq_make(mod.PROOF_TARGETS)
         checker_cmds.append("make -f Makefile.coq -j16 " + " ".join(mod.PROOF_TARGETS))
-        props_src = open(os.path.join(COQ, mod.PROPS_FILE)).read()
-        thms = re.findall(r"^(?:Theorem|Lemma)\s+(\w+)", props_src, re.M)
+        props_files = [mod.PROPS_FILE] + list(getattr(mod, "EXTRA_PROPS_FILES", []))
+        props_srcs = {pf: open(os.path.join(COQ, pf)).read() for pf in props_files}
+        thms = [t for pf in props_files for t in re.findall(r"^(?:Theorem|Lemma)\s+(\w+)", props_srcs[pf], re.M)]
         obligations = len(thms)
         if rc != 0:
             tail = "\n".join(out.strip().splitlines()[-12:])
             proof_broken.append("proof build failed:\n" + tail)
         else:
-            rc, out, dt = coq_props(mod.PROPS_FILE)
-            checker_cmds.append("coqc -Q . TF " + mod.PROPS_FILE)
-            if rc != 0:
-                tail = "\n".join(out.strip().splitlines()[-12:])
-                proof_broken.append("props file failed:\n" + tail)
-            else:
-                thms, printed, axioms_seen = parse_assumptions(props_src, out)
-                for t in thms:
-                    if t not in axioms_seen:
+            for pf in props_files:
+                rc, out, dt = coq_props(pf)
+                checker_cmds.append("coqc -Q . TF " + pf)
+                if rc != 0:
+                    tail = "\n".join(out.strip().splitlines()[-12:])
+                    proof_broken.append("props file %s failed:\n" % pf + tail)
+                    continue
+                thms_f, printed, ax_f = parse_assumptions(props_srcs[pf], out)
+                axioms_seen.update(ax_f)
+                for t in thms_f:
+                    if t not in ax_f:
                         proof_broken.append("no Print Assumptions output for " + t)
                         continue
-                    bad = [x for x in axioms_seen[t] if x.split(".")[-1] not in ALLOWED_AXIOMS and x not in ALLOWED_AXIOMS]
+                    bad = [x for x in ax_f[t] if x.split(".")[-1] not in ALLOWED_AXIOMS and x not in ALLOWED_AXIOMS]
                     if bad:
                         proof_broken.append("theorem %s depends on non-allowed axioms %s" % (t, bad))
                     else:
